@@ -65,6 +65,30 @@ def stress_specs(rng):
             for name, body in (('choice+copy', ch + cp), ('copy+choice', cp + ch), ('copy', cp), ('choice', ch), ('choice+constraint+copy', ch + cn + cp)):
                 out.append((Dd + body, ['P'], 'head-condition/' + name))
     out.append((P, ['P', 'S'], 'head-condition-then-equal-entities'))
+    # the same concept once with a temporal prefix and once plain / negated in one body: both occurrences must stay
+    for pre in ('previously', 'initially'):
+        for second in ('not a', 'a'):
+            G = ('A gun is identified by a status.\nA shooter is identified by an id.\nThe following propositions apply in the initial state:\n'
+                 'There is a gun with status equal to loaded.\nThe following propositions always apply except in the initial state:\n'
+                 f'Whenever there is {pre} a gun with status X, whenever there is {second} gun with status X, then we can have a shooter with id X.\n'
+                 f'It is prohibited that there is {pre} a gun with status X, whenever there is {second} gun with status X.\n')
+            out.append((G, ['X'], f'prefixed-and-plain-occurrence/{pre}'))
+    # comparisons on the variables of an aggregate ('for each' discriminant, aggregated variable) belong inside the braces
+    SA = 'A scoreassignment is identified by an id, and by a value.\nThere is a scoreassignment with id 1, with value 1.\nThere is a scoreassignment with id 3, with value 2.\n'
+    for body in ('the total value, for each id, that have a scoreassignment with id X is between 1 and 2, where X is greater than 2',
+                 'the total value, for each id X, that have a scoreassignment is greater than 2, where X is greater than 2',
+                 'the total value V, for each id, that have a scoreassignment with id X is greater than 2, where V is greater than 2',
+                 'the highest value, for each id X, that have a scoreassignment is less than 5, where X is different from 1'):
+        out.append((SA + f'It is prohibited that {body}.\n', ['X', 'V'], 'aggregate-where-on-discriminant'))
+    # a verb whose FIRST mention carries a prefix: the prefix must stay local to that mention
+    H = ('A robot is identified by an id.\nA location is identified by an id.\nThe following propositions always apply:\nThere is a robot with id 1.\n'
+         'There is a location with id 1.\nThere is a location with id 2.\nThe following propositions always apply except in the initial state:\n')
+    for pre in ('subsequently', 'previously'):
+        cons = f'It is prohibited that robot R is {pre} at location L, when robot R is at location L.\n'
+        choice = 'Whenever there is a robot R, then R can be at exactly 1 location L.\n'
+        rule = 'Robot R is busy when robot R is at location L.\n'
+        out.append((H + cons + choice + rule, ['R', 'L'], f'prefix-on-first-mention/{pre}'))
+        out.append((H + choice + rule + cons, ['R', 'L'], f'prefix-on-later-mention/{pre}'))
     out.append((P.replace('Every patient can have a booking to exactly 1 slot.\n', ''), ['P', 'S'], 'equal-entities-alone'))
     return out
 
@@ -96,8 +120,13 @@ def ground_external(program, timeout=45):
     return p.returncode == 0, [('msg', p.stdout)]
 
 
+STRESS = ('arith', 'two-tel', 'strings', 'constants', 'head-', 'equal-', 'prefixed-and', 'aggregate-where', 'prefix-on')
+
+
 def _job(args):
     text, author, kind = args
+    if kind.startswith(STRESS):
+        author = set()       # in the stress forms every label has a positive occurrence in its sentence: an unsafe label is the compiler's doing
     rt.enable_lark_cache()
     r = rt.compile_cnl(text)
     if r[0] != 'ok':
@@ -204,7 +233,7 @@ def main(tier):
     for r in results:
         if 'rejected' in r:
             stats['rejected'] += 1
-            if r['kind'].startswith(('arith', 'two-tel', 'strings', 'constants', 'head-', 'equal-')):
+            if r['kind'].startswith(('arith', 'two-tel', 'strings', 'constants', 'head-', 'equal-', 'prefixed-and', 'aggregate-where', 'prefix-on')):
                 run.note(f'stress form rejected by the compiler ({r["kind"]}): {r["rejected"][:120]}')
             continue
         stats['accepted'] += 1
@@ -233,7 +262,7 @@ F15_RE = re.compile(r'[Ww]henever there is an? (\w+) ([A-Z]\w*)\b[^.]*\bthen [^.
 def classify(r, msg):
     """a stable key for the failing construct (what is wrong, where), independent of names and numbers"""
     prog = r['program']
-    stress = r['kind'].startswith(('arith', 'two-tel', 'strings', 'constants', 'head-', 'equal-'))
+    stress = r['kind'].startswith(('arith', 'two-tel', 'strings', 'constants', 'head-', 'equal-', 'prefixed-and', 'aggregate-where', 'prefix-on'))
     if 'not supported' in msg or 'leading primes' in msg:
         # telingo names the offending atom by position
         m = LOC_RE.search(msg)
@@ -249,7 +278,17 @@ def classify(r, msg):
                 where = 'formula' if pre.count('{') > pre.count('}') and '&tel' in pre else ('body' if ':-' in pre else 'head')
                 mark = ('final-mark' if atom.startswith('__') else 'initial-mark' if atom.startswith('_') else 'past-prime' if atom.startswith("'")
                         else 'future-prime' if re.match(r"\w+'", atom) else 'atom')
-        return f'{mark}-in-{where}' + ('/' + r['kind'] if stress else '')
+        leak = ''
+        if m and mark != 'atom' and mark != '?':
+            pm = re.match(r"[_']*([a-z]\w*?)'?\(", atom + '(')
+            if pm:
+                pred = pm.group(1)
+                words = pred.replace('_', ' ')
+                marked = len(re.findall(r"(?<![A-Za-z0-9])(?:__|_|')" + re.escape(pred) + r"\(|(?<![A-Za-z0-9_'])" + re.escape(pred) + r"'\(", prog))
+                said = len(re.findall(r'\b(?:previously|subsequently|initially|finally)\s+(?:an?\s+)?' + re.escape(words.split(' ')[0]), r['text']))
+                if marked > said:
+                    leak = '/mark-without-prefix-in-the-text'
+        return f'{mark}-in-{where}' + leak + ('/' + r['kind'] if stress else '')
     if stress:
         return r['kind']
     m = re.match(r"\['([A-Z]\w*)'", msg)
